@@ -209,7 +209,8 @@ Print Assumptions C26_lazy_once_return_after.
 Print Assumptions C26_lazy_fail_wakes.
 
 (* --- deeper chains (sixth round), still BOUNDED in the depth ---
-   chain n = an eager wraps chain of depth n.  (a) deploy(top); undeploy(top) for every depth 1..40; (b)
+   chain n = an eager wraps chain of depth n.  (a) deploy(top); undeploy(top) for every depth 1..40 -- ONE task,
+   hence a single run per depth (the schedule is universally quantified but has no freedom); (b)
    deploy(top); undeploy_all() (n concurrent child tasks) for every depth 1..6, every interleaving: wrap_order,
    once and return_after in every reachable state.  The arbitrary-depth statement is NOT proved: the recursion
    through the chain makes the frame stacks unbounded (outside the finite-shape invariants of
@@ -227,6 +228,29 @@ Proof. exact chain_all_all_schedules. Qed.
 
 Print Assumptions C26_chain_depth40_sequential_partial.
 Print Assumptions C26_chain_depth6_undeploy_all_partial.
+
+(* --- scope of the UNBOUNDED theorems with respect to model fidelity ---
+   [step] runs at most fuel0 = 2000 micro-steps per atomic stretch; when a stretch is longer the model marks the
+   state [bad] and freezes the task (the real code has no such limit).  The unbounded theorems above are
+   statements about the LOG of every execution of the model, including such cut executions (where they are true
+   of a prefix of what the code would log); they do NOT conclude [bad = false], and no bound relating fuel0 to
+   the request sizes is proved (it needs a termination measure on [micro]; not done).  They speak about the
+   code exactly on the executions with [bad = false] -- which the correspondence run checks on every real case,
+   and which every bounded family above includes in its conclusion ([explore] demands it).  The witness below
+   (one request of 700 deploy operations of an already deployed deployment: the whole request is ONE atomic
+   stretch of > 2000 micro-steps) shows that the caveat is real. *)
+Theorem C26_fuel_cut_refuted :
+  exists d reqs sched,
+    wrapper d = false /\ lazy d = false /\ fails d = [] /\ deploy_only reqs /\
+    valid false [d] (init reqs) sched = true /\ bad (run false [d] (init reqs) sched) = true.
+Proof.
+  exists (mkD false None false [] 0 0), [repeat (ODeploy 0) 700], [0].
+  split; [reflexivity|split; [reflexivity|split; [reflexivity|split]]].
+  - constructor; [|constructor]. apply Forall_forall. intros o Ho. apply repeat_spec in Ho. exact Ho.
+  - vm_compute. split; reflexivity.
+Qed.
+
+Print Assumptions C26_fuel_cut_refuted.
 
 (* --- fail_wakes is false of the current code: d1 wraps d0, d0's deploy fails; the second deploy(d1) is
    blocked for ever (no task is ready, task 1 is not done) *)
